@@ -9,6 +9,7 @@ the failing code line; the line bookkeeping of write/newline (code_lineno advanc
 pending newlines, an entry is written when the node's line changes); Parser.fail and the
 token stream default to the current token's line; the lexer's line accounting (C39).
 Also: emitted stub functions carry @internalcode; compile_templates writes the generated text verbatim.  
+Also: in a multi-token lexer rule every part that can consume a line break lies inside a capture group; the bytecode bucket key depends on the file name.  
 Not decided: traceback rewriting at run time (frame surgery in debug.py).
 """
 
